@@ -358,6 +358,16 @@ def call_external(h: Any, name: str, args: List[AV], kwargs: Dict[str, AV], node
                 return ctx.choose(("random.choice", ctx.new_id()), payload)
         return Term(short, tuple(args), ctx.new_id())
     if short in ("re.compile", "regex.compile"):
+        pat0 = args[0] if args else kwargs.get("pattern")
+        if pat0 is not None and not (isinstance(pat0, Const) and isinstance(pat0.value, str)):
+            # a pattern computed from data: the engine may refuse it when it is compiled (A1: a pattern the I-Regexp
+            # grammar admits can still be rejected by the engine, e.g. a{2,1} or [z-a]); a non-string is a TypeError
+            kp = h.json_kind(pat0)
+            if (kp is not None and kp != "str") or isinstance(pat0, (Inst, IntV, PyList, PyTuple, PyDict, EnumV)):
+                raise h.raise_("TypeError", "first argument must be string or compiled pattern", node)
+            mod = short.split(".")[0]
+            if ctx.choose(("regex-compile", mod, ctx.new_id()), ["ok", "error"]) != "ok":
+                raise h.raise_(f"{mod}.error", "bad pattern", node)
         t = Term("re.compile", tuple(args), ctx.new_id())
         h.regex_module[t.id] = short.split(".")[0]
         return t
@@ -366,8 +376,15 @@ def call_external(h: Any, name: str, args: List[AV], kwargs: Dict[str, AV], node
         if not args or (k0 is not None and k0 != "str") or isinstance(args[0], (Inst, IntV, PyList, PyTuple, PyDict, EnumV)):
             # A1: the checker is a compiled extension taking a str; anything else is a TypeError
             raise h.raise_("TypeError", "argument 'pattern': expected str", node)
-        r = ctx.choose(("iregexp_check", h.key_desc(args[0])), [True, False])
+        opts = [True, False]
+        if not isinstance(args[0], Const):
+            # A1: the checker encodes its argument as UTF-8; a string taken from the document may hold a lone surrogate
+            # (json.loads('"\\ud800"') gives one), which makes that encoding fail with UnicodeEncodeError
+            opts = [True, False, "UnicodeEncodeError"]
+        r = ctx.choose(("iregexp_check", h.key_desc(args[0])), opts)
         ctx.log.append(("extcall", short, tuple(args), i.site(node)))
+        if r == "UnicodeEncodeError":
+            raise h.raise_("UnicodeEncodeError", "'utf-8' codec can't encode character: surrogates not allowed", node)
         return Const(r)
     if short in ("regex.fullmatch", "regex.search", "regex.match", "re.fullmatch", "re.search", "re.match"):
         ctx.log.append(("extcall", short, tuple(args), tuple(sorted(kwargs.items())), i.site(node)))
@@ -951,6 +968,10 @@ def call_method(h: Any, recv: AV, name: str, args: List[AV], kwargs: Dict[str, A
             if m is not None:
                 h.match_text[t.id] = m.group()
             return t
+        subj0 = args[0] if args else None
+        ks0 = h.json_kind(subj0) if subj0 is not None else None
+        if (ks0 is not None and ks0 != "str") or isinstance(subj0, (Inst, IntV, PyList, PyTuple, PyDict, EnumV)):
+            raise h.raise_("TypeError", "expected string or buffer", node)
         t = Term("re." + name, (recv,) + tuple(args), ctx.new_id())
         ctx.atom_info[("truth", "term", t.id)] = {"kind": "regex", "mode": name, "pattern": recv.args[0] if recv.args else None, "subject": args[0] if args else None, "pos": args[1] if len(args) > 1 else None}
         return t
